@@ -122,10 +122,21 @@ def add_new_activation_tensor(
   Returns:
     The index of the new tensor in the subgraph.
   """
+  # Tensor names must stay unique: the same tensor can receive several
+  # insertions (e.g. consumers quantized with different parameters).
+  existing_names = set(tensor.name for tensor in subgraph.tensors)
+  unique_name = tensor_name
+  name_index = 0
+  while unique_name in existing_names:
+    name_index += 1
+    suffix = '_%d' % name_index
+    unique_name = tensor_name + (
+        suffix.encode() if isinstance(tensor_name, bytes) else suffix
+    )
   new_tensor = schema_py_generated.TensorT()
   new_tensor.shape = shape
   new_tensor.type = tensor_type
-  new_tensor.name = tensor_name
+  new_tensor.name = unique_name
   new_tensor.buffer = 0
   new_tensor_id = len(subgraph.tensors)
   subgraph.tensors.append(new_tensor)
